@@ -14,7 +14,7 @@ import "fmt"
 type op struct {
 	Kind string
 	// native-send | transfer | create-store | create-kill | call-ok | call-revert | call-oog | kill |
-	// poor-below | poor-exact | wrong-chain | resubmit
+	// poor-below | poor-exact | wrong-chain | resubmit | create-factory | factory-child-reverts | factory-child-ok
 	From  string // A | EA | EC
 	To    string // B | EA | EB | A | F | STORE (the store contract, or the address EA's next creation will get)
 	Nonce int    // OLVM: offset to the nonce the sender is predicted to have at that point of the block: 0 = exactly it, +2 = gap, -1 = one below (skipped when that nonce is 0)
@@ -142,4 +142,31 @@ func triples() []event {
 	}
 }
 
-func events() []event { return append(append(singles(), pairs()...), triples()...) }
+// factoryEvents: value that moves INSIDE one transaction. The factory contract forwards 1 OLT of the 3 OLT it is
+// called with to the address its next CREATE will produce and then creates a child there with an endowment
+// of 2 OLT; the child's init code reverts (the endowment stays with the factory) or returns (the child ends
+// with 3 OLT). "The transferred value to the recipient" then has three recipients, one of them re-created in
+// a frame that may be rolled back. (Added after a seeded change - an in-place addition on a number shared by
+// the old and the re-created account object - was caught by the adapter check C16 only.)
+var (
+	mkFactory     = op{Kind: "create-factory", From: "EA"}
+	factoryRevert = op{Kind: "factory-child-reverts", From: "EA"}
+	factoryOK     = op{Kind: "factory-child-ok", From: "EA"}
+)
+
+func factoryEvents() []event {
+	return []event{
+		{Ops: []op{mkFactory}},
+		{Ops: []op{factoryRevert}},
+		{Ops: []op{factoryOK}},
+		{Ops: []op{mkFactory, factoryRevert}},
+		{Ops: []op{factoryRevert, factoryOK}},
+	}
+}
+
+// lateEvents: the events the quick tier tries in the first two blocks of a history only.
+func lateEvents() int { return len(triples()) + len(factoryEvents()) }
+
+func events() []event {
+	return append(append(append(singles(), pairs()...), triples()...), factoryEvents()...)
+}
